@@ -61,9 +61,11 @@ TRACE = None
 _LAZY_FRAMES = []
 # (function, positional arguments incl. the receiver) of every interpreted call while a rule asked for it (R04.4)
 CALL_LOG = None
-# statements executed while some local array of the frame carries pending signs (rules/sem_lazy.py asks for it on the synchronised twin:
-# pending signs seen there were produced inside the operation, not inherited from the operand)
+# (function, file, line): statements executed inside the dynamic extent of a call of `function` while that call was entered with
+# pending signs or some array in scope at the statement carries pending signs (rules/sem_lazy.py asks for it on the synchronised
+# twin: pending signs seen there were not inherited from the operand the twins differ in)
 LAZY_AT = None
+_ALL_FRAMES = []
 
 
 class _OsStub:
@@ -167,6 +169,12 @@ class Evaluator:
                 raise Unsupported(f"missing argument {n} calling {finfo.fq}")
         if CALL_LOG is not None:
             CALL_LOG.append((finfo.fq, [env[n] for n in ([x.arg for x in a.posonlyargs + a.args]) if n in env]))
+        if LAZY_AT is not None:
+            _ALL_FRAMES.append((finfo.fq, any(isinstance(v, Obj) and v.fields.get("_phases") for v in env.values())))
+            try:
+                return self._run_body(finfo, node, env)
+            finally:
+                _ALL_FRAMES.pop()
         if TRACE is not None and any(isinstance(v, Obj) and v.fields.get("_phases") for v in env.values()):
             # a frame entered with pending signs on one of its operands: the statements executed inside its dynamic extent
             # are recorded against it (rules/sem_lazy.py)
@@ -213,8 +221,13 @@ class Evaluator:
         if TRACE is not None:
             for fq in _LAZY_FRAMES:
                 TRACE.add((fq, fi.module.relpath, s.lineno))
-        if LAZY_AT is not None and any(isinstance(v, Obj) and v.fields.get("_phases") for v in env.values()):
-            LAZY_AT.add((fi.module.relpath, s.lineno))
+        if LAZY_AT is not None:
+            here = any(isinstance(v, Obj) and v.fields.get("_phases") for v in env.values())
+            for fq, entered_lazy in _ALL_FRAMES:
+                if entered_lazy:
+                    LAZY_AT.add(("entered", fq, fi.module.relpath, s.lineno))
+                elif here:
+                    LAZY_AT.add(("produced", fq, fi.module.relpath, s.lineno))
         self.steps += 1
         if self.steps > self.max_steps:
             raise Unsupported("step budget exceeded")
